@@ -7,6 +7,7 @@ package main
 
 import (
 	"fmt"
+	"github.com/tinode/chat/server/zzverif/vatomic"
 	"strings"
 	"testing"
 	"time"
@@ -293,7 +294,12 @@ func TestVerifC03SuspendAtLoad(t *testing.T) {
 						}
 						memdb.OnReturn = func(name string) { event("after store call " + name) }
 						vsched.OnPoint = func(kind string) { event(kind) }
-						restore := func() { memdb.OnCall, memdb.OnReturn, vsched.OnPoint = prev, nil, nil }
+						vatomic.OnOp = func(write bool) {
+							if !write {
+								event("atomic load") // stores and read-modify-writes are scheduling points already
+							}
+						}
+						restore := func() { memdb.OnCall, memdb.OnReturn, vsched.OnPoint, vatomic.OnOp = prev, nil, nil, nil }
 						vsched.OnKill(restore)
 						subCode, _ = x.cl[1].Req(`{"sub":{"id":"$ID","topic":"%s"}}`, target)
 						restore()
